@@ -1,7 +1,7 @@
 #!/usr/bin/env python3
 """Refreshes the commit hashes of 'fixed' entries in known_findings.json from /repo's git log (by finding id -> commit subject)."""
 import json, subprocess
-subj = {"F9a":"fix: take reloadMu in FBDNSDB.ValidateDbKey","F9b":"fix: read the served DB path under reloadMu in the DB watcher","F9c":"fix: access IteratorPool.enabled atomically","F1":"fix: do not close the served backend when validation fails after a same-path reload","F2":"fix: do not pop a label from the root name when re-evaluating a DS query","F3":"fix: compare the remaining name length, not the full name, at the zone border of the sorted reader","F4":"fix: an exact get must not be served from a closest-key cache entry of another key","F7":"fix: never match an IPv6 subnet for an IPv4 client subnet in the CDB driver","F13":"fix: ignore a closest key that is not a range point of the requested map","F6":"fix: print the wildcard prefix of SVCB/HTTPS records","F10":"fix: sliding window cleaner dropped live samples","F11":"fix: a destroyed DB hands out no readers, is not reloaded or asked for stats, and is closed once","F14":"fix: load the initial DB under reloadMu and refuse to reload before it is loaded","F8":"fix: do not cache an answer computed on a DB generation that a reload has replaced","F5":"fix: closest-key map lookup when the wildcard map of the queried name itself is the closest key","F15":"fix: mask the client address with its prefix length before the range point search","F12":"fix: only a zero-length prefix is a default route in the rearranger","F16":"fix: batch compiler deadlocked with BatchNumParallel == 0","F17":"fix: try the root wildcard map last in the closest-key map lookup","F18":"fix: look an IPv4-mapped IPv6 client subnet up as the IPv4 subnet it is","F19":"fix: make the response cache key fixed-width for the query type and class","F20":"fix: read whole numbers in cdb Dump"}
+subj = {"F9a":"fix: take reloadMu in FBDNSDB.ValidateDbKey","F9b":"fix: read the served DB path under reloadMu in the DB watcher","F9c":"fix: access IteratorPool.enabled atomically","F1":"fix: do not close the served backend when validation fails after a same-path reload","F2":"fix: do not pop a label from the root name when re-evaluating a DS query","F3":"fix: compare the remaining name length, not the full name, at the zone border of the sorted reader","F4":"fix: an exact get must not be served from a closest-key cache entry of another key","F7":"fix: never match an IPv6 subnet for an IPv4 client subnet in the CDB driver","F13":"fix: ignore a closest key that is not a range point of the requested map","F6":"fix: print the wildcard prefix of SVCB/HTTPS records","F10":"fix: sliding window cleaner dropped live samples","F11":"fix: a destroyed DB hands out no readers, is not reloaded or asked for stats, and is closed once","F14":"fix: load the initial DB under reloadMu and refuse to reload before it is loaded","F8":"fix: do not cache an answer computed on a DB generation that a reload has replaced","F5":"fix: closest-key map lookup when the wildcard map of the queried name itself is the closest key","F15":"fix: mask the client address with its prefix length before the range point search","F12":"fix: only a zero-length prefix is a default route in the rearranger","F16":"fix: batch compiler deadlocked with BatchNumParallel == 0","F17":"fix: try the root wildcard map last in the closest-key map lookup","F18":"fix: look an IPv4-mapped IPv6 client subnet up as the IPv4 subnet it is","F19":"fix: make the response cache key fixed-width for the query type and class","F20":"fix: read whole numbers in cdb Dump","F21":"fix: echo the client subnet option in REFUSED responses"}
 log = subprocess.run(['git','-C','/repo','log','--format=%h %s'],capture_output=True,text=True).stdout.splitlines()
 h = {l.split(' ',1)[1]: l.split(' ',1)[0] for l in log}
 kf = json.load(open('/verif/known_findings.json'))
